@@ -1,0 +1,263 @@
+//go:build verif
+// +build verif
+
+// Contracts for package env, read by /verif/engine (govc). Comment-only file: it adds no code.
+//
+// Abstract view (C12): an Env is a scope; has(e.values, s) / e.values[s] is its own dictionary (a nil map is the
+// empty dictionary), e.parent the enclosing scope. lookupV / foundV / nearest are the chain-walking views; they
+// read the heap implicitly ("reads") and are defined by one-step unfolding axioms that the functions reveal
+// with "use" (fuel 1).
+
+package env
+
+//@ guarded_by env.Env.rwMutex: values, types
+
+// external lookups are pure functions of (lookup object, name)
+//@ spec fun extVal(x ExternalLookup, s string) RV
+//@ spec fun extErr(x ExternalLookup, s string) error
+//@ spec fun extType(x ExternalLookup, s string) RT
+//@ spec fun extTypeErr(x ExternalLookup, s string) error
+//@ spec fun strContains(s string, sub string) bool
+
+//@ spec fun extHit(e *Env, s string) bool = e.externalLookup != nil && extErr(e.externalLookup, s) == nil
+//@ spec fun extTypeHit(e *Env, s string) bool = e.externalLookup != nil && extTypeErr(e.externalLookup, s) == nil
+
+// foundV(e,s): the chain starting at e resolves s;  lookupV(e,s): the value it resolves to.
+//@ spec fun foundV(e *Env, s string) bool reads H:env.Env.values, H:env.Env.parent, H:env.Env.externalLookup, MV:Int:Int, MP:Int
+//@ spec fun lookupV(e *Env, s string) RV reads H:env.Env.values, H:env.Env.parent, H:env.Env.externalLookup, MV:Int:Int, MP:Int
+//@ axiom foundV-def: forall e *Env, s string :: e != nil ==> (foundV(e, s) <==> (has(e.values, s) || extHit(e, s) || (e.parent != nil && foundV(e.parent, s))))
+//@ axiom lookupV-def: forall e *Env, s string :: e != nil ==> lookupV(e, s) == ite(has(e.values, s), e.values[s], ite(extHit(e, s), extVal(e.externalLookup, s), ite(e.parent != nil, lookupV(e.parent, s), NilValue)))
+
+// nearest(e,s): the nearest scope on the chain whose own dictionary binds s (nil if none) — what Set updates.
+//@ spec fun nearest(e *Env, s string) *Env reads H:env.Env.values, H:env.Env.parent, MP:Int
+//@ axiom nearest-def: forall e *Env, s string :: e != nil ==> nearest(e, s) == ite(has(e.values, s), e, ite(e.parent != nil, nearest(e.parent, s), nil))
+
+// types: same chain, ending in the built-in type names
+//@ spec fun foundT(e *Env, s string) bool reads H:env.Env.types, H:env.Env.parent, H:env.Env.externalLookup, MV:Int:Int, MP:Int, G:env.basicTypes
+//@ spec fun lookupT(e *Env, s string) RT reads H:env.Env.types, H:env.Env.parent, H:env.Env.externalLookup, MV:Int:Int, MP:Int, G:env.basicTypes
+//@ axiom foundT-def: forall e *Env, s string :: e != nil ==> (foundT(e, s) <==> (has(e.types, s) || extTypeHit(e, s) || (e.parent != nil && foundT(e.parent, s)) || (e.parent == nil && has(basicTypes, s))))
+//@ axiom lookupT-def: forall e *Env, s string :: e != nil ==> lookupT(e, s) == ite(has(e.types, s), e.types[s], ite(extTypeHit(e, s), extType(e.externalLookup, s), ite(e.parent != nil, lookupT(e.parent, s), ite(has(basicTypes, s), basicTypes[s], NilType))))
+
+// root(e): the outermost scope of the chain
+//@ spec fun rootOf(e *Env) *Env reads H:env.Env.parent
+//@ axiom rootOf-def: forall e *Env :: e != nil ==> rootOf(e) == ite(e.parent == nil, e, rootOf(e.parent)) && rootOf(e) != nil
+
+// ---------------------------------------------------------------------------
+// constructors
+
+//@ func NewEnv
+//@ props C12 C04
+//@ ensures result != nil && fresh(result) && result.parent == nil && result.values == nil && result.types == nil && result.externalLookup == nil
+
+//@ func (*Env).NewEnv
+//@ props C12 C04
+//@ ensures result != nil && fresh(result) && result.parent == e && result.values == nil && result.types == nil && result.externalLookup == nil
+
+//@ func (*Env).NewModule
+//@ props C12 C04
+//@ requires e != nil
+//@ requires [C13] unlocked: lockstate(e) == 0
+//@ modifies e.values, mapof(e.values)
+//@ ensures dot: strContains(symbol, ".") ==> result.1 == ErrSymbolContainsDot && e.values == old(e.values)
+//@ ensures mod: result.0 != nil && fresh(result.0) && result.0.parent == e && result.0.values == nil
+//@ ensures def: !strContains(symbol, ".") ==> result.1 == nil && has(e.values, symbol)
+//@ ensures others: forall k string :: k != symbol ==> (has(e.values, k) <==> old(has(e.values, k))) && (has(e.values, k) ==> e.values[k] == old(e.values[k]))
+
+//@ func (*Env).SetExternalLookup
+//@ props C12
+//@ requires e != nil
+//@ modifies e.externalLookup
+//@ ensures e.externalLookup == externalLookup
+
+// ---------------------------------------------------------------------------
+// values
+
+//@ func (*Env).DefineValue
+//@ props C12 C04
+//@ requires e != nil
+//@ requires [C13] unlocked: lockstate(e) == 0
+//@ modifies e.values, mapof(e.values)
+//@ ensures dot: strContains(symbol, ".") ==> result == ErrSymbolContainsDot && e.values == old(e.values) && mapdom(e.values) == old(mapdom(e.values)) && mapvals(e.values) == old(mapvals(e.values))
+//@ ensures def: !strContains(symbol, ".") ==> result == nil && has(e.values, symbol) && e.values[symbol] == value
+//@ ensures others: forall k string :: k != symbol ==> (has(e.values, k) <==> old(has(e.values, k))) && (has(e.values, k) ==> e.values[k] == old(e.values[k]))
+//@ critical 0 atomic: has(e.values, symbol) && e.values[symbol] == value && (forall k string :: k != symbol ==> (has(e.values, k) <==> acq(has(e.values, k))) && (has(e.values, k) ==> e.values[k] == acq(e.values[k])))
+
+//@ func (*Env).Define
+//@ props C12 C04
+//@ requires e != nil
+//@ requires [C13] unlocked: lockstate(e) == 0
+//@ modifies e.values, mapof(e.values)
+//@ ensures dot: strContains(symbol, ".") ==> result == ErrSymbolContainsDot && e.values == old(e.values) && mapdom(e.values) == old(mapdom(e.values)) && mapvals(e.values) == old(mapvals(e.values))
+//@ ensures def: !strContains(symbol, ".") ==> result == nil && has(e.values, symbol)
+//@ ensures others: forall k string :: k != symbol ==> (has(e.values, k) <==> old(has(e.values, k))) && (has(e.values, k) ==> e.values[k] == old(e.values[k]))
+
+//@ func (*Env).DefineGlobalValue
+//@ props C12
+//@ requires e != nil
+//@ requires [C13] unlocked: lockstate(rootOf(e)) == 0
+//@ modifies rootOf(e).values, mapof(rootOf(e).values)
+//@ ensures dot: strContains(symbol, ".") ==> result == ErrSymbolContainsDot && rootOf(e).values == old(rootOf(e).values)
+//@ ensures def: !strContains(symbol, ".") ==> result == nil && has(rootOf(e).values, symbol) && rootOf(e).values[symbol] == value
+//@ loop 0 invariant e != nil && rootOf(e) == old(rootOf(e))
+//@ use rootOf-def(e)
+
+//@ func (*Env).DefineGlobal
+//@ props C12
+//@ requires e != nil
+//@ requires [C13] unlocked: lockstate(rootOf(e)) == 0
+//@ modifies rootOf(e).values, mapof(rootOf(e).values)
+//@ ensures dot: strContains(symbol, ".") ==> result == ErrSymbolContainsDot && rootOf(e).values == old(rootOf(e).values)
+//@ ensures def: !strContains(symbol, ".") ==> result == nil && has(rootOf(e).values, symbol)
+//@ loop 0 invariant e != nil && rootOf(e) == old(rootOf(e))
+//@ use rootOf-def(e)
+
+//@ func (*Env).SetValue
+//@ props C12 C04
+//@ requires e != nil
+//@ requires [C13] unlocked: lockstate(e) == 0
+//@ modifies heap("MV:Int:Int"), heap("MP:Int")
+//@ ensures miss: old(nearest(e, symbol)) == nil ==> result != nil && heap("MV:Int:Int") == old(heap("MV:Int:Int")) && heap("MP:Int") == old(heap("MP:Int"))
+//@ ensures hit: old(nearest(e, symbol)) != nil ==> result == nil && heap("MP:Int") == old(heap("MP:Int")) && heap("MV:Int:Int") == store(old(heap("MV:Int:Int")), old(nearest(e, symbol)).values, store(old(mapvals(nearest(e, symbol).values)), symbol, value))
+//@ use nearest-def(e, symbol)
+//@ critical 0 atomic: (acq(has(e.values, symbol)) ==> has(e.values, symbol) && e.values[symbol] == value) && (!acq(has(e.values, symbol)) ==> !has(e.values, symbol)) && (forall k string :: k != symbol ==> (has(e.values, k) <==> acq(has(e.values, k))) && (has(e.values, k) ==> e.values[k] == acq(e.values[k])))
+
+//@ func (*Env).Set
+//@ props C12
+//@ requires e != nil
+//@ requires [C13] unlocked: lockstate(e) == 0
+//@ modifies heap("MV:Int:Int"), heap("MP:Int")
+//@ ensures miss: old(nearest(e, symbol)) == nil ==> result != nil && heap("MV:Int:Int") == old(heap("MV:Int:Int")) && heap("MP:Int") == old(heap("MP:Int"))
+//@ ensures hit: old(nearest(e, symbol)) != nil ==> result == nil && heap("MP:Int") == old(heap("MP:Int"))
+
+//@ func (*Env).GetValue
+//@ props C12 C04
+//@ requires e != nil
+//@ requires [C13] unlocked: lockstate(e) == 0
+//@ ensures found: foundV(e, symbol) ==> result.1 == nil && result.0 == lookupV(e, symbol)
+//@ ensures miss: !foundV(e, symbol) ==> result.1 != nil && result.0 == NilValue
+//@ use foundV-def(e, symbol)
+//@ use lookupV-def(e, symbol)
+//@ critical 0 snapshot: forall k string :: (has(e.values, k) <==> acq(has(e.values, k))) && e.values[k] == acq(e.values[k])
+
+//@ func (*Env).Get
+//@ props C12
+//@ requires e != nil
+//@ requires [C13] unlocked: lockstate(e) == 0
+//@ ensures found: foundV(e, symbol) ==> result.1 == nil
+//@ ensures miss: !foundV(e, symbol) ==> result.1 != nil
+
+//@ func (*Env).GetValueSymbols
+//@ props C12
+//@ requires e != nil
+//@ requires [C13] unlocked: lockstate(e) == 0
+
+//@ func (*Env).Delete
+//@ props C12
+//@ requires e != nil
+//@ requires [C13] unlocked: lockstate(e) == 0
+//@ modifies mapof(e.values)
+//@ ensures gone: !has(e.values, symbol)
+//@ ensures others: forall k string :: k != symbol ==> (has(e.values, k) <==> old(has(e.values, k))) && (has(e.values, k) ==> e.values[k] == old(e.values[k]))
+//@ critical 0 atomic: !has(e.values, symbol) && (forall k string :: k != symbol ==> (has(e.values, k) <==> acq(has(e.values, k))))
+
+//@ func (*Env).DeleteGlobal
+//@ props C12
+//@ requires e != nil
+//@ requires [C13] unlocked: lockstate(e) == 0
+//@ modifies heap("MP:Int"), heap("MV:Int:Int")
+//@ ensures here: old(e.parent == nil || has(e.values, symbol)) ==> !has(e.values, symbol)
+
+//@ func (*Env).Addr
+//@ props C12
+//@ requires e != nil
+//@ requires [C13] unlocked: lockstate(e) == 0
+//@ ensures miss: !foundV(e, symbol) ==> result.1 != nil && result.0 == NilValue
+//@ use foundV-def(e, symbol)
+
+// ---------------------------------------------------------------------------
+// types
+
+//@ func (*Env).DefineReflectType
+//@ props C12
+//@ requires e != nil
+//@ requires [C13] unlocked: lockstate(e) == 0
+//@ modifies e.types, mapof(e.types)
+//@ ensures dot: strContains(symbol, ".") ==> result == ErrSymbolContainsDot && e.types == old(e.types) && mapdom(e.types) == old(mapdom(e.types)) && mapvals(e.types) == old(mapvals(e.types))
+//@ ensures def: !strContains(symbol, ".") ==> result == nil && has(e.types, symbol) && e.types[symbol] == reflectType
+//@ ensures others: forall k string :: k != symbol ==> (has(e.types, k) <==> old(has(e.types, k))) && (has(e.types, k) ==> e.types[k] == old(e.types[k]))
+//@ critical 0 atomic: has(e.types, symbol) && e.types[symbol] == reflectType && (forall k string :: k != symbol ==> (has(e.types, k) <==> acq(has(e.types, k))) && (has(e.types, k) ==> e.types[k] == acq(e.types[k])))
+
+//@ func (*Env).DefineType
+//@ props C12
+//@ requires e != nil
+//@ requires [C13] unlocked: lockstate(e) == 0
+//@ modifies e.types, mapof(e.types)
+//@ ensures dot: strContains(symbol, ".") ==> result == ErrSymbolContainsDot && e.types == old(e.types) && mapdom(e.types) == old(mapdom(e.types)) && mapvals(e.types) == old(mapvals(e.types))
+//@ ensures def: !strContains(symbol, ".") ==> result == nil && has(e.types, symbol)
+//@ ensures others: forall k string :: k != symbol ==> (has(e.types, k) <==> old(has(e.types, k))) && (has(e.types, k) ==> e.types[k] == old(e.types[k]))
+
+//@ func (*Env).DefineGlobalReflectType
+//@ props C12
+//@ requires e != nil
+//@ requires [C13] unlocked: lockstate(rootOf(e)) == 0
+//@ modifies rootOf(e).types, mapof(rootOf(e).types)
+//@ ensures dot: strContains(symbol, ".") ==> result == ErrSymbolContainsDot && rootOf(e).types == old(rootOf(e).types)
+//@ ensures def: !strContains(symbol, ".") ==> result == nil && has(rootOf(e).types, symbol) && rootOf(e).types[symbol] == reflectType
+//@ loop 0 invariant e != nil && rootOf(e) == old(rootOf(e))
+//@ use rootOf-def(e)
+
+//@ func (*Env).DefineGlobalType
+//@ props C12
+//@ requires e != nil
+//@ requires [C13] unlocked: lockstate(rootOf(e)) == 0
+//@ modifies rootOf(e).types, mapof(rootOf(e).types)
+//@ ensures dot: strContains(symbol, ".") ==> result == ErrSymbolContainsDot && rootOf(e).types == old(rootOf(e).types)
+//@ ensures def: !strContains(symbol, ".") ==> result == nil && has(rootOf(e).types, symbol)
+//@ loop 0 invariant e != nil && rootOf(e) == old(rootOf(e))
+//@ use rootOf-def(e)
+
+//@ func (*Env).Type
+//@ props C12
+//@ requires e != nil
+//@ requires [C13] unlocked: lockstate(e) == 0
+//@ ensures found: foundT(e, symbol) ==> result.1 == nil && result.0 == lookupT(e, symbol)
+//@ ensures miss: !foundT(e, symbol) ==> result.1 != nil && result.0 == NilType
+//@ use foundT-def(e, symbol)
+//@ use lookupT-def(e, symbol)
+//@ critical 0 snapshot: forall k string :: (has(e.types, k) <==> acq(has(e.types, k))) && e.types[k] == acq(e.types[k])
+
+//@ func (*Env).GetTypeSymbols
+//@ props C12
+//@ requires e != nil
+//@ requires [C13] unlocked: lockstate(e) == 0
+
+// ---------------------------------------------------------------------------
+// whole-scope operations
+
+//@ func (*Env).String
+//@ props C12
+//@ requires e != nil
+//@ requires [C13] unlocked: lockstate(e) == 0
+
+//@ func (*Env).GetEnvFromPath
+//@ props C12
+//@ requires e != nil
+//@ requires [C13] unlocked: lockstate(e) == 0
+//@ ensures empty: len(path) < 1 ==> result.0 == e && result.1 == nil
+//@ ensures oneof: result.1 == nil ==> result.0 != nil
+
+//@ func (*Env).Copy
+//@ props C12
+//@ requires e != nil
+//@ requires [C13] unlocked: lockstate(e) == 0
+//@ ensures fresh: result != nil && fresh(result) && result.parent == e.parent && result.externalLookup == e.externalLookup
+//@ ensures maps: (e.values == nil ==> result.values == nil) && (e.values != nil ==> result.values != nil && fresh(result.values)) && (e.types == nil ==> result.types == nil) && (e.types != nil ==> result.types != nil && fresh(result.types))
+//@ ensures src1: e.values == old(e.values) && e.types == old(e.types)
+//@ ensures src2: mapdom(e.values) == old(mapdom(e.values))
+//@ ensures src3: mapvals(e.values) == old(mapvals(e.values))
+
+//@ func (*Env).DeepCopy
+//@ props C12
+//@ requires e != nil
+//@ requires [C13] unlocked: lockstate(e) == 0
+//@ ensures result != nil && fresh(result)
